@@ -588,7 +588,12 @@ impl SimHooks for Sched {
       }
       "truncate" => {
         if let Ok(bytes) = std::fs::read(path) {
-          let _ = std::fs::write(path, &bytes[..bytes.len() / 2]);
+          // cut at a line end within the first half: the plain-text reports print source lines
+          // verbatim and a file without final newline glues the next report onto its last line,
+          // which is cosmetic but defeats a line-by-line comparison
+          let half = &bytes[..bytes.len() / 2];
+          let cut = half.iter().rposition(|b| *b == b'\n').map(|i| i + 1).unwrap_or(0);
+          let _ = std::fs::write(path, &bytes[..cut]);
         }
         None
       }
